@@ -523,8 +523,8 @@ type SvcCase struct {
 	Bulk        int    `json:"bulk,omitempty"`
 	BulkExpired int    `json:"bulkExpired,omitempty"`
 	BulkSP      uint64 `json:"bulkSP,omitempty"`
-	Seeds []Seed `json:"seeds"`
-	Ops   []SOp  `json:"ops"`
+	Seeds       []Seed `json:"seeds"`
+	Ops         []SOp  `json:"ops"`
 }
 
 func genSvc(t *rapid.T) SvcCase {
